@@ -517,6 +517,10 @@ class Translator:
         for (_, t) in params:
             self.ctype(t)
         self.ctype(f.ret)
+        if cname in self.opts.get("opaque", ()):
+            f.body = None
+            self.rule("opaque-function (assumed contract)")
+            return f
         body = None
         stmts = []
         self.blockstack.append([])
@@ -1122,11 +1126,53 @@ class Translator:
             return X("comma", self.discard(a), self.rv(b) if not self.is_glvalue(b) else self.lv(b), ty=ty)
         if op in (".*", "->*"):
             raise ExtractionBreak("pointer to member")
+        uf = self.uf_name(op, ty, self.ety(a), self.ety(b))
+        if uf:
+            self.rule("arith-op->uninterpreted")
+            return X("call", uf, [self.rv(a), self.rv(b)], ty=ty)
         return X("bin", op, self.rv(a), self.rv(b), ty=ty)
 
     def e_CompoundAssignOperator(self, e):
         a, b = e["inner"]
+        if (self.opts.get("uf_float") or self.opts.get("uf_arith")) and "computeResultType" in e:
+            crt = parse_type(e["computeResultType"].get("desugaredQualType") or e["computeResultType"]["qualType"])
+            op = e["opcode"][:-1]
+            uf = self.uf_name(op, crt, self.ety(a), self.ety(b))
+            if uf:
+                lhs = self.lv(a)
+                if not self.simple_lvalue(lhs):
+                    raise ExtractionBreak("compound arithmetic assignment to a complex lvalue")
+                self.rule("arith-op->uninterpreted")
+                lty = self.ety(a)
+                call = X("call", uf, [X("cast", self.ctype(crt), lhs), X("cast", self.ctype(crt), self.rv(b))], ty=crt)
+                return X("assign", "=", lhs, X("cast", self.ctype(lty), call), ty=lty)
         return X("assign", e["opcode"], self.lv(a), self.rv(b), ty=self.ety(e))
+
+    UFT = {"int": "i32", "unsigned int": "u32", "long": "i64", "unsigned long": "u64", "float": "f32", "double": "f64"}
+
+    def uf_name(self, op, ty, ta, tb):
+        """name of the uninterpreted symbol standing for scalar `op` in type ty, or None"""
+        if op not in ("+", "-", "*", "/", "%"):
+            return None
+        if ty.kind != "builtin" or ty.name not in self.UFT:
+            return None
+        if ta.kind != "builtin" or tb.kind != "builtin":
+            return None
+        if ty.is_float():
+            if not (self.opts.get("uf_float") or self.opts.get("uf_arith")) or op == "%":
+                return None
+        elif not self.opts.get("uf_arith"):
+            return None
+        return "verif_%s_%s" % ({"+": "add", "-": "sub", "*": "mul", "/": "div", "%": "mod"}[op], self.UFT[ty.name])
+
+    def simple_lvalue(self, x):
+        if x.k == "var":
+            return True
+        if x.k in ("mem",):
+            return self.simple_lvalue(x.a[0])
+        if x.k == "deref":
+            return x.a[0].k == "var"
+        return False
 
     def e_ConditionalOperator(self, e):
         c, a, b = e["inner"]
@@ -1535,6 +1581,8 @@ class Translator:
 
     def function_text(self, f, contract="", loopann=None, static=False):
         self.loop_used = set()
+        if f.body is None:
+            return "%s\n%s;\n" % (self.signature(f), contract)
         body = "".join(self.prs(s, 1, loopann) for s in f.body)
         if loopann:
             missing = set(loopann) - self.loop_used
